@@ -18,24 +18,24 @@ Section R.
   Record raw := { slots : tmap slot; rcap : N; rlen : N; rfree : N }.
   Definition is_occ (s : slot) := status s <=? M63.
 
-  Inductive out (A : Type) := Ok (a : A) | Uninit | Hang | AssertFailed.
-  Arguments Ok {A}. Arguments Uninit {A}. Arguments Hang {A}. Arguments AssertFailed {A}.
+  Inductive out (A : Type) := ROk (a : A) | Uninit | Hang | AssertFailed.
+  Arguments ROk {A}. Arguments Uninit {A}. Arguments Hang {A}. Arguments AssertFailed {A}.
 
   Definition nexti (t : raw) (i : N) := N.land (i + 1) (rcap t - 1).
 
   Fixpoint probe (fuel : nat) (t : raw) (k : K) (st : N) (index : N) : out (option N) :=
     match fuel with O => Hang | S fuel =>
       let s := tget (slots t) index in
-      if status s =? FREE then Ok None
+      if status s =? FREE then ROk None
       else if status s =? st then
         match sval s with
         | None => Uninit
-        | Some (k', _) => if keqb k' k then Ok (Some index) else probe fuel t k st (nexti t index)
+        | Some (k', _) => if keqb k' k then ROk (Some index) else probe fuel t k st (nexti t index)
         end
       else probe fuel t k st (nexti t index)
     end.
   Definition find (t : raw) (k : K) : out (option N) :=
-    if rlen t =? 0 then Ok None
+    if rlen t =? 0 then ROk None
     else if rfree t =? 0 then AssertFailed          (* debug_assert_ne!(free, 0); release would Hang *)
     else probe (N.to_nat (rcap t)) t k (N.land (hash k) M63) (N.land (hash k) (rcap t - 1)).
 
@@ -95,8 +95,8 @@ Section R.
         status s <> FREE /\ ~ (status s = st /\ exists p, sval s = Some (k, p))) ->
     (exists i, i < rcap t /\ status (tget (slots t) i) = FREE) ->
     match probe fuel t k st (at_ t h d) with
-    | Ok (Some i) => i < rcap t /\ is_occ (tget (slots t) i) = true /\ exists p, sval (tget (slots t) i) = Some (k, p)
-    | Ok None => forall i p, i < rcap t -> is_occ (tget (slots t) i) = true -> sval (tget (slots t) i) <> Some (k, p)
+    | ROk (Some i) => i < rcap t /\ is_occ (tget (slots t) i) = true /\ exists p, sval (tget (slots t) i) = Some (k, p)
+    | ROk None => forall i p, i < rcap t -> is_occ (tget (slots t) i) = true -> sval (tget (slots t) i) <> Some (k, p)
     | _ => False
     end.
   Proof.
@@ -149,13 +149,13 @@ Section R.
   Fixpoint probe_free (fuel : nat) (t : raw) (k : K) (index : N) (dead : option N) : out (N + N) :=
     match fuel with O => Hang | S fuel =>
       let s := tget (slots t) index in
-      if status s =? FREE then Ok (inr (match dead with Some d => d | None => index end))
+      if status s =? FREE then ROk (inr (match dead with Some d => d | None => index end))
       else
         let dead' := if status s =? DEAD then Some index else dead in
         if status s =? st_of k then
           match sval s with
           | None => Uninit
-          | Some (k', _) => if keqb k' k then Ok (inl index) else probe_free fuel t k (nexti t index) dead'
+          | Some (k', _) => if keqb k' k then ROk (inl index) else probe_free fuel t k (nexti t index) dead'
           end
         else probe_free fuel t k (nexti t index) dead'
     end.
@@ -163,7 +163,7 @@ Section R.
   Definition insert_in_slot (t : raw) (k : K) (p : P) (i : N) : out raw :=
     let s := tget (slots t) i in
     if is_occ s then AssertFailed
-    else Ok (set_slot t i {| status := st_of k; sval := Some (k, p) |} (rlen t + 1)
+    else ROk (set_slot t i {| status := st_of k; sval := Some (k, p) |} (rlen t + 1)
                       (if status s =? DEAD then rfree t else rfree t - 1)).
   Definition remove_at_slot (t : raw) (i : N) : out (raw * (K * P)) :=
     let s := tget (slots t) i in
@@ -173,7 +173,7 @@ Section R.
     | None => Uninit
     | Some kv =>
       let nf := status (tget (slots t) (nexti t i)) =? FREE in
-      Ok (set_slot t i {| status := if nf then FREE else DEAD; sval := None |} (rlen t - 1)
+      ROk (set_slot t i {| status := if nf then FREE else DEAD; sval := None |} (rlen t - 1)
                    (if nf then rfree t + 1 else rfree t), kv)
     end.
 
@@ -220,7 +220,7 @@ Section R.
 
   (* removal: tombstone, or FREE when the next slot is FREE *)
   Lemma remove_ok t i : RInv t -> RCnt t -> i < rcap t -> is_occ (tget (slots t) i) = true ->
-    exists t' kv, remove_at_slot t i = Ok (t', kv) /\ sval (tget (slots t) i) = Some kv /\ RInv t' /\ RCnt t' /\
+    exists t' kv, remove_at_slot t i = ROk (t', kv) /\ sval (tget (slots t) i) = Some kv /\ RInv t' /\ RCnt t' /\
       rlen t' + 1 = rlen t /\
       (forall j, j <> i -> tget (slots t') j = tget (slots t) j) /\ is_occ (tget (slots t') i) = false.
   Proof.
@@ -291,8 +291,8 @@ Section R.
         status s <> FREE /\ ~ (status s = st_of k /\ exists p, sval s = Some (k, p))) ->
     (forall x, dead = Some x -> exists dx, dx < d /\ at_ t h dx = x /\ status (tget (slots t) x) = DEAD) ->
     match probe_free fuel t k (at_ t h d) dead with
-    | Ok (inl i) => i < rcap t /\ is_occ (tget (slots t) i) = true /\ exists p, sval (tget (slots t) i) = Some (k, p)
-    | Ok (inr e) => (forall i p, i < rcap t -> is_occ (tget (slots t) i) = true -> sval (tget (slots t) i) <> Some (k, p)) /\
+    | ROk (inl i) => i < rcap t /\ is_occ (tget (slots t) i) = true /\ exists p, sval (tget (slots t) i) = Some (k, p)
+    | ROk (inr e) => (forall i p, i < rcap t -> is_occ (tget (slots t) i) = true -> sval (tget (slots t) i) <> Some (k, p)) /\
                     e < rcap t /\ is_occ (tget (slots t) e) = false /\
                     exists de, de < rcap t /\ at_ t h de = e /\ forall d', d' < de -> status (tget (slots t) (at_ t h d')) <> FREE
     | _ => False
@@ -348,7 +348,7 @@ Section R.
     e < rcap t -> is_occ (tget (slots t) e) = false ->
     (exists de, de < rcap t /\ at_ t (home t (st_of k)) de = e /\
         forall d', d' < de -> status (tget (slots t) (at_ t (home t (st_of k)) d')) <> FREE) ->
-    exists t', insert_in_slot t k p e = Ok t' /\ RInv t' /\ RCnt t' /\ 1 <= rfree t' /\ rlen t' = rlen t + 1 /\
+    exists t', insert_in_slot t k p e = ROk t' /\ RInv t' /\ RCnt t' /\ 1 <= rfree t' /\ rlen t' = rlen t + 1 /\
       tget (slots t') e = {| status := st_of k; sval := Some (k, p) |} /\
       (forall j, j <> e -> tget (slots t') j = tget (slots t) j).
   Proof.
@@ -421,18 +421,18 @@ Section R.
   Definition empty_slot : slot := {| status := FREE; sval := None |}.
   Fixpoint first_free (fuel : nat) (t : raw) (index : N) : out N :=
     match fuel with O => Hang | S fuel =>
-      if status (tget (slots t) index) =? FREE then Ok index else first_free fuel t (nexti t index) end.
+      if status (tget (slots t) index) =? FREE then ROk index else first_free fuel t (nexti t index) end.
   Definition rehash_one (nw : raw) (sl : slot) : out raw :=
     if is_occ sl then
       match first_free (N.to_nat (rcap nw)) nw (N.land (status sl) (rcap nw - 1)) with
-      | Ok e => Ok (set_slot nw e {| status := status sl; sval := sval sl |} (rlen nw + 1) (rfree nw - 1))
+      | ROk e => ROk (set_slot nw e {| status := status sl; sval := sval sl |} (rlen nw + 1) (rfree nw - 1))
       | Uninit => Uninit | Hang => Hang | AssertFailed => AssertFailed
       end
-    else Ok nw.
+    else ROk nw.
   Fixpoint rehash_loop (n : nat) (old nw : raw) : out raw :=
-    match n with O => Ok nw | S m =>
+    match n with O => ROk nw | S m =>
       match rehash_loop m old nw with
-      | Ok nw1 => rehash_one nw1 (tget (slots old) (N.of_nat m))
+      | ROk nw1 => rehash_one nw1 (tget (slots old) (N.of_nat m))
       | Uninit => Uninit | Hang => Hang | AssertFailed => AssertFailed
       end
     end.
@@ -442,7 +442,7 @@ Section R.
   Lemma first_free_ok t h : RInv t -> (exists i, i < rcap t /\ status (tget (slots t) i) = FREE) ->
     forall fuel d, (N.to_nat (rcap t) <= fuel + N.to_nat d)%nat -> d <= rcap t ->
     (forall d', d' < d -> status (tget (slots t) (at_ t h d')) <> FREE) ->
-    exists e, first_free fuel t (at_ t h d) = Ok e /\ e < rcap t /\ status (tget (slots t) e) = FREE /\
+    exists e, first_free fuel t (at_ t h d) = ROk e /\ e < rcap t /\ status (tget (slots t) e) = FREE /\
       exists de, de < rcap t /\ at_ t h de = e /\ forall d', d' < de -> status (tget (slots t) (at_ t h d')) <> FREE.
   Proof.
     intros I Hfree. induction fuel as [|fuel IH]; intros d Hfuel Hd Hprev.
@@ -463,7 +463,7 @@ Section R.
 
   Lemma rehash_loop_ok old c : RInv old -> RCnt old -> (exists m, c = 2 ^ m) -> c <= M63 -> rlen old + 2 <= c ->
     forall n, N.of_nat n <= rcap old ->
-    exists nw, rehash_loop n old (fresh c) = Ok nw /\ RInv nw /\ RCnt nw /\ rcap nw = c /\
+    exists nw, rehash_loop n old (fresh c) = ROk nw /\ RInv nw /\ RCnt nw /\ rcap nw = c /\
       rlen nw = cntS isocc old n /\ rfree nw + rlen nw = c /\
       (forall k p, holds_kv nw k p <-> holds_below old (N.of_nat n) k p).
   Proof.
@@ -534,9 +534,9 @@ Section R.
     match fuel with O => AssertFailed (* unreachable!() *) | S fuel =>
       let sl := tget (slots t) i in
       let t1 := set_slot t i empty_slot (if is_occ sl then rlen t - 1 else rlen t) (rfree t) in
-      if is_occ sl && (rlen t1 =? 0) then Ok t1 else clear_from fuel t1 (i + 1)
+      if is_occ sl && (rlen t1 =? 0) then ROk t1 else clear_from fuel t1 (i + 1)
     end.
-  Definition clear (t : raw) : out raw := if rlen t =? 0 then Ok t else clear_from (N.to_nat (rcap t)) t 0.
+  Definition clear (t : raw) : out raw := if rlen t =? 0 then ROk t else clear_from (N.to_nat (rcap t)) t 0.
 
   (* number of occupied slots in [i, i + n) *)
   Fixpoint cnt_from (t : raw) (i : N) (n : nat) : N :=
@@ -559,7 +559,7 @@ Section R.
 
   Lemma clear_from_ok : forall fuel t i, N.of_nat fuel + i = rcap t -> rlen t = cnt_from t i fuel -> rlen t <> 0 ->
     (forall j, j < i -> is_occ (tget (slots t) j) = false) ->
-    exists t', clear_from fuel t i = Ok t' /\ rlen t' = 0 /\ rcap t' = rcap t /\ rfree t' = rfree t /\
+    exists t', clear_from fuel t i = ROk t' /\ rlen t' = 0 /\ rcap t' = rcap t /\ rfree t' = rfree t /\
       (forall j, j < rcap t -> is_occ (tget (slots t') j) = false) /\
       (forall j, status (tget (slots t) j) = FREE -> status (tget (slots t') j) = FREE).
   Proof.
@@ -597,32 +597,32 @@ Section R.
 
   (* ================= the public operations as a map ================= *)
   Definition obind {A B} (x : out A) (f : A -> out B) : out B :=
-    match x with Ok a => f a | Uninit => Uninit | Hang => Hang | AssertFailed => AssertFailed end.
-  Definition reserve (t : raw) (add : N) : out raw := if rfree t <? add then reserve_rehash t add else Ok t.
+    match x with ROk a => f a | Uninit => Uninit | Hang => Hang | AssertFailed => AssertFailed end.
+  Definition reserve (t : raw) (add : N) : out raw := if rfree t <? add then reserve_rehash t add else ROk t.
   Definition find_or_free (t : raw) (k : K) : out (raw * (N + N)) :=
     obind (reserve t 2) (fun t1 =>
-    obind (probe_free (N.to_nat (rcap t1)) t1 k (N.land (hash k) (rcap t1 - 1)) None) (fun r => Ok (t1, r))).
+    obind (probe_free (N.to_nat (rcap t1)) t1 k (N.land (hash k) (rcap t1 - 1)) None) (fun r => ROk (t1, r))).
   Definition insert (t : raw) (k : K) (p : P) : out (raw * (N + N)) :=
     obind (find_or_free t k) (fun x =>
       match x with
       | (t1, inl i) =>     (* overwrite in place through get_at_slot_mut (debug-asserts occupied) *)
         let s := tget (slots t1) i in
-        if is_occ s then Ok (set_slot t1 i {| status := status s; sval := Some (k, p) |} (rlen t1) (rfree t1), inl i)
+        if is_occ s then ROk (set_slot t1 i {| status := status s; sval := Some (k, p) |} (rlen t1) (rfree t1), inl i)
         else AssertFailed
-      | (t1, inr e) => obind (insert_in_slot t1 k p e) (fun t2 => Ok (t2, inr e))
+      | (t1, inr e) => obind (insert_in_slot t1 k p e) (fun t2 => ROk (t2, inr e))
       end).
   Definition remove (t : raw) (k : K) : out (raw * option (K * P)) :=
     obind (find t k) (fun o =>
       match o with
-      | Some i => obind (remove_at_slot t i) (fun x => Ok (fst x, Some (snd x)))
-      | None => Ok (t, None)
+      | Some i => obind (remove_at_slot t i) (fun x => ROk (fst x, Some (snd x)))
+      | None => ROk (t, None)
       end).
   Definition get (t : raw) (k : K) : out (option (K * P)) :=
     obind (find t k) (fun o =>
       match o with
-      | Some i => if is_occ (tget (slots t) i) then match sval (tget (slots t) i) with Some kv => Ok (Some kv) | None => Uninit end
+      | Some i => if is_occ (tget (slots t) i) then match sval (tget (slots t) i) with Some kv => ROk (Some kv) | None => Uninit end
                   else AssertFailed
-      | None => Ok None
+      | None => ROk None
       end).
   Definition new_raw : raw := {| slots := tconst empty_slot; rcap := 0; rlen := 0; rfree := 0 |}.
 
@@ -665,8 +665,8 @@ Section R.
 
   Theorem find_ok t k : WF t ->
     match find t k with
-    | Ok (Some i) => i < rcap t /\ is_occ (tget (slots t) i) = true /\ exists p, sval (tget (slots t) i) = Some (k, p)
-    | Ok None => forall p, ~ holds_kv t k p
+    | ROk (Some i) => i < rcap t /\ is_occ (tget (slots t) i) = true /\ exists p, sval (tget (slots t) i) = Some (k, p)
+    | ROk None => forall p, ~ holds_kv t k p
     | _ => False
     end.
   Proof.
@@ -679,8 +679,8 @@ Section R.
         pose proof (probe_sound t k I (N.to_nat (rcap t)) 0) as Hp. cbv zeta in Hp.
         change (N.land (hash k) M63) with (st_of k) in *.
         assert (Hx : match probe (N.to_nat (rcap t)) t k (st_of k) (at_ t (home t (st_of k)) 0) with
-                     | Ok (Some i) => i < rcap t /\ is_occ (tget (slots t) i) = true /\ exists p, sval (tget (slots t) i) = Some (k, p)
-                     | Ok None => forall i p, i < rcap t -> is_occ (tget (slots t) i) = true -> sval (tget (slots t) i) <> Some (k, p)
+                     | ROk (Some i) => i < rcap t /\ is_occ (tget (slots t) i) = true /\ exists p, sval (tget (slots t) i) = Some (k, p)
+                     | ROk None => forall i p, i < rcap t -> is_occ (tget (slots t) i) = true -> sval (tget (slots t) i) <> Some (k, p)
                      | _ => False end).
         { apply Hp; [lia|lia|intros d' Hd'; lia|apply (r_free1 _ I Hn0)]. }
         destruct (probe _ _ _ _ _) as [[i|]| | |]; auto.
@@ -711,7 +711,7 @@ Section R.
   Qed.
 
   Lemma reserve_ok t : WF t -> small t ->
-    exists t1, reserve t 2 = Ok t1 /\ RInv t1 /\ RCnt t1 /\ 2 <= rfree t1 /\ rlen t1 = rlen t /\
+    exists t1, reserve t 2 = ROk t1 /\ RInv t1 /\ RCnt t1 /\ 2 <= rfree t1 /\ rlen t1 = rlen t /\
       (forall k p, holds_kv t1 k p <-> holds_kv t k p).
   Proof.
     intros W Hs. unfold reserve. destruct (N.ltb_spec (rfree t) 2) as [Hlt|Hge].
@@ -771,7 +771,7 @@ Section R.
   Qed.
 
   Theorem insert_top_ok t k p : WF t -> small t ->
-    exists t' r, insert t k p = Ok (t', r) /\ WF t' /\ RInv t' /\ holds_kv t' k p /\
+    exists t' r, insert t k p = ROk (t', r) /\ WF t' /\ RInv t' /\ holds_kv t' k p /\
       (forall k' q, k' <> k -> (holds_kv t' k' q <-> holds_kv t k' q)) /\
       match r with
       | inl _ => (exists q, holds_kv t k q) /\ rlen t' = rlen t
@@ -811,7 +811,7 @@ Section R.
   Qed.
 
   Theorem remove_top_ok t k : WF t ->
-    exists t' o, remove t k = Ok (t', o) /\ WF t' /\
+    exists t' o, remove t k = ROk (t', o) /\ WF t' /\
       (forall q, ~ holds_kv t' k q) /\ (forall k' q, k' <> k -> (holds_kv t' k' q <-> holds_kv t k' q)) /\
       match o with
       | Some (k0, p) => k0 = k /\ holds_kv t k p /\ rlen t' + 1 = rlen t
@@ -844,8 +844,8 @@ Section R.
 
   Theorem get_ok t k : WF t ->
     match get t k with
-    | Ok (Some (k0, p)) => k0 = k /\ holds_kv t k p
-    | Ok None => forall p, ~ holds_kv t k p
+    | ROk (Some (k0, p)) => k0 = k /\ holds_kv t k p
+    | ROk None => forall p, ~ holds_kv t k p
     | _ => False
     end.
   Proof.
@@ -862,7 +862,7 @@ Section R.
     destruct (P' (status (tget (slots t) (N.of_nat n)))) eqn:E; [rewrite (H _ E); lia|destruct (P' _); lia].
   Qed.
 
-  Theorem clear_top_ok t : WF t -> exists t', clear t = Ok t' /\ WF t' /\ forall k p, ~ holds_kv t' k p.
+  Theorem clear_top_ok t : WF t -> exists t', clear t = ROk t' /\ WF t' /\ forall k p, ~ holds_kv t' k p.
   Proof.
     intros W. unfold clear. destruct (N.eqb_spec (rlen t) 0) as [H0|Hn0].
     - exists t. splits; auto. intros k p (i & Hi & Ho & _).
@@ -902,15 +902,15 @@ Section R.
     end.
   Definition rstep (t : raw) (o : rop) : out (raw * robs) :=
     match o with
-    | RIns k p => obind (insert t k p) (fun x => Ok (fst x, OIns (match snd x with inl _ => true | inr _ => false end)))
-    | RRem k => obind (remove t k) (fun x => Ok (fst x, ORem (match snd x with Some kv => Some (snd kv) | None => None end)))
-    | RGet k => obind (get t k) (fun x => Ok (t, OGet (match x with Some kv => Some (snd kv) | None => None end)))
-    | RClear => obind (clear t) (fun t' => Ok (t', OClear))
+    | RIns k p => obind (insert t k p) (fun x => ROk (fst x, OIns (match snd x with inl _ => true | inr _ => false end)))
+    | RRem k => obind (remove t k) (fun x => ROk (fst x, ORem (match snd x with Some kv => Some (snd kv) | None => None end)))
+    | RGet k => obind (get t k) (fun x => ROk (t, OGet (match x with Some kv => Some (snd kv) | None => None end)))
+    | RClear => obind (clear t) (fun t' => ROk (t', OClear))
     end.
   Fixpoint rrun (t : raw) (l : list rop) : out (raw * list robs) :=
     match l with
-    | [] => Ok (t, [])
-    | o :: l' => obind (rstep t o) (fun x => obind (rrun (fst x) l') (fun y => Ok (fst y, snd x :: snd y)))
+    | [] => ROk (t, [])
+    | o :: l' => obind (rstep t o) (fun x => obind (rrun (fst x) l') (fun y => ROk (fst y, snd x :: snd y)))
     end.
   Fixpoint mrun (m : K -> option P) (l : list rop) : (K -> option P) * list robs :=
     match l with
@@ -919,7 +919,7 @@ Section R.
     end.
 
   Lemma rstep_ok t m o : WF t -> small t -> Refines t m ->
-    exists t', rstep t o = Ok (t', snd (mstep m o)) /\ WF t' /\ Refines t' (fst (mstep m o)) /\ rlen t' <= rlen t + 1.
+    exists t', rstep t o = ROk (t', snd (mstep m o)) /\ WF t' /\ Refines t' (fst (mstep m o)) /\ rlen t' <= rlen t + 1.
   Proof.
     intros W Hs R. destruct o as [k p|k|k|]; cbn [rstep mstep fst snd].
     - destruct (insert_top_ok t k p W Hs) as (t' & r & Hins & W' & I' & Hh & Hoth & Hr).
@@ -954,7 +954,7 @@ Section R.
   Qed.
 
   Theorem raw_history l : forall t m, WF t -> Refines t m -> rlen t + N.of_nat (length l) + 2 <= 2 ^ 62 ->
-    exists t', rrun t l = Ok (t', snd (mrun m l)) /\ WF t' /\ Refines t' (fst (mrun m l)).
+    exists t', rrun t l = ROk (t', snd (mrun m l)) /\ WF t' /\ Refines t' (fst (mrun m l)).
   Proof.
     induction l as [|o l IH]; intros t m W R Hb.
     - exists t. cbn. auto.
@@ -965,7 +965,7 @@ Section R.
   Qed.
 
   Corollary raw_history_new l : N.of_nat (length l) + 2 <= 2 ^ 62 ->
-    exists t', rrun new_raw l = Ok (t', snd (mrun (fun _ => None) l)) /\ WF t' /\ Refines t' (fst (mrun (fun _ => None) l)).
+    exists t', rrun new_raw l = ROk (t', snd (mrun (fun _ => None) l)) /\ WF t' /\ Refines t' (fst (mrun (fun _ => None) l)).
   Proof.
     intro Hb. apply raw_history; [apply WF_new| |cbn [new_raw rlen]; lia].
     intros k p. split; [intros (i & Hi & _); cbn in Hi; lia|discriminate].
